@@ -393,6 +393,9 @@ class ClassUtils:
             total = len(items)
             if total == 2 and not items[0].is_enumeration:
                 cls.rename_attribute_by_preference(*items)
+                for item in items:
+                    others = {x.slug for x in target.attrs if x is not item}
+                    item.name = cls.unique_name(item.name, others)
             elif total > 1:
                 cls.rename_attributes_by_index(target.attrs, items)
 
